@@ -1,6 +1,7 @@
 package main
 
 import (
+	"bufio"
 	"bytes"
 	"fmt"
 	"io"
@@ -324,5 +325,70 @@ func sealBurst(c *Ctx, who string) {
 			}
 		}
 		c.Count(fmt.Sprint(id, nconn, nwr), true, "stream:burst", fmt.Sprintf("burst:conns=%d", nconn))
+	}
+}
+
+// stackedWriters: what sits on top of a hap.Connection in net/http (a 4096-byte bufio.Writer) and in hc itself
+// (hap.NewChunkedWriter) relies on the io.Writer contract: Write(p) returns len(p) and no more. Payloads around and above
+// the buffer size written through such a writer must reach the peer byte for byte.
+func stackedWriters(c *Ctx, who string) {
+	sizes := []int{1, 100, 1024, 2048, 4095, 4096, 4097, 5000, 8192, 9000, 20000, 70000}
+	for si, n := range sizes {
+		for _, kind := range []string{"direct", "bufio4096", "chunked2048", "bufio4096-two-writes"} {
+			id := fmt.Sprintf("stacked#%s.%d", kind, n)
+			if c.Skip(id) {
+				continue
+			}
+			r := c.CaseRng("stacked", si)
+			sk := &sinkConn{remote: fakeAddr(fmt.Sprintf("10.9.2.%d:7000", si+1))}
+			ctx := hap.NewContextForSecuredDevice(nil)
+			conn := hap.NewConnection(sk, ctx)
+			var shared [32]byte
+			copy(shared[:], randBytes(r, 32))
+			sec, _ := crypto.NewSecureSessionFromSharedKey(shared)
+			ctx.GetSessionForConnection(sk).SetCryptographer(sec)
+			responseWritten(ctx, sk)
+			peer := newRefControllerSession(shared[:])
+			payload := randBytes(r, n)
+			var wn int
+			var werr error
+			msg, pan := safely(func() {
+				switch kind {
+				case "direct":
+					wn, werr = conn.Write(payload)
+				case "bufio4096":
+					bw := bufio.NewWriterSize(conn, 4096)
+					wn, werr = bw.Write(payload)
+					if werr == nil {
+						werr = bw.Flush()
+					}
+				case "bufio4096-two-writes":
+					bw := bufio.NewWriterSize(conn, 4096)
+					h := n / 3
+					a, e1 := bw.Write(payload[:h])
+					b, e2 := bw.Write(payload[h:])
+					wn = a + b
+					if werr = e1; werr == nil {
+						werr = e2
+					}
+					if werr == nil {
+						werr = bw.Flush()
+					}
+				case "chunked2048":
+					wn, werr = hap.NewChunkedWriter(conn, 2048).Write(payload)
+				}
+			})
+			in := map[string]interface{}{"writer": kind, "payload_bytes": n}
+			if pan {
+				c.Violate(who+": writing through a standard writer stacked on an encrypted connection panics (Write reports more bytes than it was given)", id, in, "payload delivered", trunc(msg, 200))
+				continue
+			}
+			pt, used, ok := peer.DecryptFrames(sk.out)
+			if werr != nil || wn != n || !ok || used != len(sk.out) || !bytes.Equal(pt, payload) {
+				c.Violate(who+": a payload written to an encrypted connection does not reach the peer intact, or Write does not report exactly the bytes it was given", id, in,
+					fmt.Sprintf("n=%d err=nil, %d bytes at the peer", n, n), fmt.Sprintf("n=%d err=%v, %d bytes at the peer (frames ok=%v)", wn, werr, len(pt), ok))
+			}
+			c.Count(id, n > 4096, "stream:stacked", "stacked:"+kind)
+		}
 	}
 }
